@@ -8,6 +8,7 @@ package main
 import (
 	"fmt"
 	"math/rand/v2"
+	"net"
 	"runtime"
 	"sort"
 	"strings"
@@ -50,6 +51,13 @@ type scriptRun struct {
 	t0  time.Time
 	iso []*isoProbe
 	ctl *control
+	inj *rawInjector // forged-source sender (nil: the script plans no poison)
+
+	// poison bursts (dispatch side)
+	burstWG       sync.WaitGroup
+	burstsRefused atomic.Int64 // bursts during whose reply window the server's tx_error counter rose
+	burstsTight   atomic.Int64 // bursts written within burstTight, poison included
+	burstSpanMax  atomic.Int64 // µs
 
 	inconclusive bool
 	nViol        int
@@ -81,6 +89,11 @@ func runScript(r *vlib.Run, sp scriptSpec, jm *jitterMon) {
 	nIso := sp.Iso
 	if sp.QueueExpiry > 0 {
 		nIso++ // a black-holed zone of its own for the queue-expiry burst (never opened)
+	}
+	if tw.ListenV6 && !v6LoopbackUsable() {
+		r.Assume("the IPv6 loopback ::1 cannot be bound here: script " + baseName(sp.Name) + " (IPv6 listener) is skipped")
+		r.Count("scripts_skipped_no_ipv6", 1)
+		return
 	}
 	e, err := newEnv(tw, nIso)
 	if err != nil {
@@ -141,7 +154,10 @@ func runScript(r *vlib.Run, sp scriptSpec, jm *jitterMon) {
 	jm.reset()
 
 	// ---- plan
-	s.pl = buildPlan(r.RandN("plan", sp.Index), &sp, len(e.t.zones))
+	s.pl = buildPlan(r.RandN("plan", sp.Index), r.RandN("poison", sp.Index), &sp, len(e.t.zones), tw.ListenV6)
+	if len(s.pl.bursts) > 0 {
+		s.inj = injector()
+	}
 	for i, ip := range e.t.iso {
 		if i < sp.Iso {
 			s.iso = append(s.iso, newIsoProbe(s, i, ip))
@@ -180,7 +196,7 @@ func runScript(r *vlib.Run, sp scriptSpec, jm *jitterMon) {
 			now := time.Now()
 			m := s.margin()
 			for _, q := range qs {
-				if q.Closer || q.Junk != "" {
+				if q.Closer || q.unjudged() {
 					continue
 				}
 				sent, sendErr, reps, closed := q.snapshot()
@@ -292,9 +308,29 @@ func runScript(r *vlib.Run, sp scriptSpec, jm *jitterMon) {
 		}
 		return w
 	}
+	var poisonSent int64
 	for _, q := range all {
 		sent, sendErr, reps, closed := q.snapshot()
 		tr := q.Tr
+		if q.Poison != "" {
+			// unanswerable by construction: nothing to observe at a socket
+			switch {
+			case sent.IsZero():
+				r.Count("poison_not_sent_kind_unavailable", 1)
+			case sendErr != "":
+				r.Count("poison_send_failed", 1)
+			default:
+				poisonSent++
+				udpShedPossible++
+				r.Count("poison_"+q.Poison+"_queries_sent", 1)
+				if q.ECS {
+					r.Count("poison_queries_worker_path", 1)
+				} else {
+					r.Count("poison_queries_inline_path", 1)
+				}
+			}
+			continue
+		}
 		if q.Junk != "" {
 			r.Count("junk_sent", 1)
 			udpShedPossible++
@@ -412,6 +448,63 @@ func runScript(r *vlib.Run, sp scriptSpec, jm *jitterMon) {
 	r.Count("queries_judged", judged)
 	r.Count("deadline_servfails", servfailLate)
 
+	// ---- poison bursts (evidence; every ordinary member was judged above like
+	// any other admitted query)
+	for _, bp := range s.pl.bursts {
+		goodSent, goodOnce, goodNone, goodDup, poisonIn, poisonBetween := 0, 0, 0, 0, 0, 0
+		seenGood := false
+		for _, p := range bp.seq {
+			sent, sendErr, reps, _ := p.q.snapshot()
+			if sent.IsZero() || sendErr != "" {
+				continue
+			}
+			if p.q.Poison != "" {
+				poisonIn++
+				if seenGood {
+					poisonBetween++ // written after an ordinary query of the same burst
+				}
+				continue
+			}
+			seenGood = true
+			goodSent++
+			switch len(reps) {
+			case 0:
+				goodNone++
+			case 1:
+				goodOnce++
+			default:
+				goodDup++
+			}
+		}
+		if goodSent == 0 {
+			continue
+		}
+		if poisonIn == 0 {
+			r.Count("poison_bursts_without_poison", 1) // raw sockets / this kind unavailable: an ordinary unpaced burst
+			continue
+		}
+		r.Count("poison_bursts", 1)
+		r.Count("poison_burst_shape/"+bp.Shape, 1)
+		r.Count("poison_burst_flavour/"+bp.Flavour, 1)
+		r.Count("poison_burst_good_queries", goodSent)
+		r.Count("poison_burst_good_answered_once", goodOnce)
+		r.Count("poison_burst_good_unanswered", goodNone) // in the UDP shed account above
+		if poisonBetween > 0 && goodSent >= 2 {
+			r.Count("poison_bursts_mixed", 1) // ≥ 2 ordinary queries and a poison datagram written after the first of them
+		}
+		if goodOnce == goodSent {
+			r.Count("poison_bursts_every_client_answered_once", 1)
+		}
+	}
+	if len(s.pl.bursts) > 0 {
+		r.Count("reply_bursts_with_refused_datagram", int(s.burstsRefused.Load()))
+		r.Count("poison_bursts_tight", int(s.burstsTight.Load()))
+		r.Max("poison_burst_span_max_us", s.burstSpanMax.Load())
+		if s.inj != nil {
+			r.Note("poison_kinds", s.inj.why)
+		}
+	}
+
 	// ---- zero replies must be accounted for exactly
 	//
 	// UDP. Every datagram the engine reads and does not serve increments one of
@@ -425,7 +518,17 @@ func runScript(r *vlib.Run, sp scriptSpec, jm *jitterMon) {
 		s.violation("ingress-panic-recovered", fmt.Sprintf("the engines recovered %d panic(s) outside the chain: each is a request that ended without a reply", p),
 			nil, nil, map[string]any{"server_counters_delta": deltas(ctr0, ctr1)})
 	}
-	udpServerDrops := delta("udp_drop_full") + delta("udp_drop_error") + delta("udp_drop_trunc") + delta("udp_drop_ctrunc") + delta("udp_drop_tx_error")
+	// A refused reply to a poison source is counted by the server as a
+	// transmit error (one per datagram, when it was staged in a burst). Those
+	// are not lost replies of anybody we wait for: they leave the budget.
+	poisonRefused := min(delta("udp_drop_tx_error"), poisonSent)
+	if poisonSent > 0 {
+		r.Count("poison_replies_refused_counted_by_server", int(poisonRefused))
+		if x := delta("udp_drop_tx_error") - poisonRefused; x > 0 {
+			r.Count("udp_tx_errors_beyond_poison", int(x))
+		}
+	}
+	udpServerDrops := delta("udp_drop_full") + delta("udp_drop_error") + delta("udp_drop_trunc") + delta("udp_drop_ctrunc") + delta("udp_drop_tx_error") - poisonRefused
 	kernelLoss := int64(0)
 	if k0.ok && k1.ok {
 		kernelLoss = k1.lossSince(k0)
@@ -468,7 +571,7 @@ func runScript(r *vlib.Run, sp scriptSpec, jm *jitterMon) {
 		}
 		var arrivals []arrival
 		for _, q := range all {
-			if q.Junk != "" {
+			if q.unjudged() {
 				continue
 			}
 			nameUses[strings.ToLower(q.Name)]++
@@ -487,7 +590,7 @@ func runScript(r *vlib.Run, sp scriptSpec, jm *jitterMon) {
 		const cluster = 10 * time.Millisecond
 		var classifiedAt []time.Time
 		for _, q := range all {
-			if q.Tr != "udp" || q.Closer || q.Junk != "" {
+			if q.Tr != "udp" || q.Closer || q.unjudged() {
 				continue
 			}
 			sent, sendErr, reps, _ := q.snapshot()
@@ -856,6 +959,7 @@ func (s *scriptRun) dispatch() time.Time {
 		}
 	}
 	sentGroup := map[int]bool{}
+	sentBurst := map[int]bool{}
 	var lastUDP time.Time
 	for _, p := range items {
 		if d := time.Until(s.t0.Add(time.Duration(p.atMs) * time.Millisecond)); d > 0 {
@@ -863,6 +967,13 @@ func (s *scriptRun) dispatch() time.Time {
 		}
 		q := p.q
 		switch {
+		case p.burst != 0:
+			if sentBurst[p.burst] {
+				continue
+			}
+			sentBurst[p.burst] = true
+			s.sendBurst(s.pl.bursts[p.burst-1])
+			mark()
 		case q.Tr == "udp" && q.Closer:
 			sock, err := s.cl.oneShotUDP()
 			if err != nil {
@@ -936,10 +1047,100 @@ func (s *scriptRun) dispatch() time.Time {
 		}
 	}
 	wg.Wait()
+	s.burstWG.Wait()
 	if n := lastNs.Load(); n != 0 {
 		return time.Unix(0, n)
 	}
 	return time.Now()
+}
+
+// burstTight: a burst written within this long is one arrival cluster for the
+// server (evidence only — it decides no verdict).
+const burstTight = 3 * time.Millisecond
+
+// sendBurst writes one poison burst: every member back-to-back from this
+// goroutine, ordinary queries through their client sockets, poison datagrams
+// through the raw socket (a poison kind that is not usable on this machine is
+// left unsent). A side goroutine then attributes the server's transmit-error
+// counter to the burst: it samples the counter before the first write and
+// again once every ordinary query of the burst has its reply (or 150 ms have
+// passed).
+func (s *scriptRun) sendBurst(bp *burstPlan) {
+	dst, err := net.ResolveUDPAddr("udp", s.cl.server)
+	if err != nil {
+		return
+	}
+	v6 := s.sp.Tweaks.ListenV6
+	type out struct {
+		q    *qrec
+		sock *udpSock
+		raw  []byte
+	}
+	outs := make([]out, 0, len(bp.seq))
+	var good []*qrec
+	for _, p := range bp.seq {
+		q := p.q
+		if q.Poison != "" {
+			if s.inj == nil || !s.inj.usable(q.Poison, v6) {
+				continue
+			}
+			outs = append(outs, out{q: q, raw: buildRawUDP(net.ParseIP(q.Src), q.PoisonPort, dst.IP, uint16(dst.Port), q.pkt)})
+			continue
+		}
+		sock := s.cl.fixedUDP(p.sock)
+		sock.register(q)
+		outs = append(outs, out{q: q, sock: sock})
+		good = append(good, q)
+	}
+	const txErr = "udp_drop_tx_error"
+	c0 := s.e.st.Counters()[txErr]
+	t0 := time.Now()
+	for _, o := range outs {
+		if o.raw == nil {
+			o.sock.send(o.q)
+			continue
+		}
+		now := time.Now()
+		err := s.inj.sendRaw(o.raw, dst.IP)
+		o.q.mu.Lock()
+		o.q.sentAt = now
+		if err != nil {
+			o.q.sendErr = err.Error()
+		}
+		o.q.mu.Unlock()
+	}
+	span := time.Since(t0)
+	if span <= burstTight {
+		s.burstsTight.Add(1)
+	}
+	for {
+		cur := s.burstSpanMax.Load()
+		if span.Microseconds() <= cur || s.burstSpanMax.CompareAndSwap(cur, span.Microseconds()) {
+			break
+		}
+	}
+	s.burstWG.Add(1)
+	go func() {
+		defer s.burstWG.Done()
+		lim := time.Now().Add(150 * time.Millisecond)
+		for time.Now().Before(lim) {
+			pending := false
+			for _, q := range good {
+				if q.nReplies() == 0 {
+					pending = true
+					break
+				}
+			}
+			if !pending {
+				break
+			}
+			time.Sleep(time.Millisecond)
+		}
+		time.Sleep(2 * time.Millisecond)
+		if s.e.st.Counters()[txErr] > c0 {
+			s.burstsRefused.Add(1)
+		}
+	}()
 }
 
 // ---------------------------------------------------------------- isolation probe
